@@ -34,7 +34,7 @@ LEAN = dict(
     modules=["MetadorModel.Props.C19"],
     theorems=[T + n for n in [
         "order_independent", "hashsums_injective", "file_entry_format", "entries_exact",
-        "chunking_independent", "hashsum_is_standard_digest", "outside_symlink_rejected",
+        "chunking_independent", "hashsum_is_standard_digest", "outside_symlink_rejected", "rejected_of_bad_entry",
         "unsupported_alg_rejected", "legacy_symlink_to_file_confused", "legacy_outside_file_symlink_accepted"]],
     drivers=["drv_hsh"],
 )
@@ -718,7 +718,7 @@ def gen_edits(rng, w0, pool, per_kind):
 def gen_cases(ctx, scale=1.0):
     rng = ctx.rng
     cases = []
-    nt = int((45 if ctx.quick else 1200) * scale)
+    nt = int((300 if ctx.quick else 4000) * scale)
     for i in range(nt):
         alg = "sha512" if rng.random() < 0.15 else "sha256"
         pool = [rbytes(rng, rng.choice(SIZES)).hex() for _ in range(rng.randrange(2, 5))]
@@ -726,7 +726,7 @@ def gen_cases(ctx, scale=1.0):
         E = gen_edits(rng, w0, pool, per_kind=2 if ctx.quick else 3)
         cases.append(dict(kind="trees", alg=alg, seed=rng.randrange(1 << 30), via_link=rng.random() < 0.2,
                           worlds=[w0] + [w for _, w in E], labels=["base"] + [l for l, _ in E]))
-    nh = int((10 if ctx.quick else 120) * scale)
+    nh = int((30 if ctx.quick else 300) * scale)
     for i in range(nh):
         alg = rng.choice(["sha256", "sha256", "sha512"])
         b = ALGS[alg]
@@ -789,9 +789,10 @@ def run(ctx):
 
 def signature(case, detail):
     k = detail.get("kind") if isinstance(detail, dict) else str(detail)[:40]
-    e = (detail.get("edit") or "").split(" ")[0] if isinstance(detail, dict) else ""
-    e = e.split("@")[0]
-    return "%s:%s%s" % (ID, k, (":" + e) if e and not e.startswith("fam") else "")
+    return "%s:%s" % (ID, k)
+
+
+_shrunk = {}
 
 
 def _oracle_kinds(case, timeout=120):
@@ -806,6 +807,13 @@ def shrink(ctx, case, detail):
     if case.get("kind") != "trees" or not isinstance(detail, dict):
         return case, detail
     want = detail.get("kind")
+    if want in _shrunk:  # one minimised witness per kind of violation
+        return _shrunk[want]
+    _shrunk[want] = res = _shrink(ctx, case, detail, want)
+    return res
+
+
+def _shrink(ctx, case, detail, want):
     idx = detail.get("trees") or [0, detail.get("tree", 0)]
     idx = sorted(set(i for i in idx if i < len(case["worlds"])))
     cur = dict(case, worlds=[case["worlds"][i] for i in idx], labels=[case["labels"][i] for i in idx], via_link=False)
